@@ -206,8 +206,9 @@ def _loops_in_order(fd):
 
 
 class LoopSpec:
-    def __init__(self, inv=None, modifies=(), types=None, name=None, at_head=None):
-        self.at_head = at_head  # called at the start of the iteration path (lemma instances)
+    def __init__(self, inv=None, modifies=(), types=None, name=None, at_head=None, at_end=None):
+        self.at_head = at_head  # called at the start of the iteration path (lemma instances); its
+        self.at_end = at_end    # result is handed to at_end(ns, token) after the body (one-step effect)
         self.inv = inv
         self.modifies = list(modifies)
         self.types = dict(types or {})
@@ -1237,11 +1238,14 @@ class Interp:
         if which == 0:
             CTX.assume(z3.And(zs <= iv.t, iv.t < ze))
             self._assume_inv(spec, scope, old, {})
+            token = None
             if spec.at_head is not None:
-                spec.at_head(NS(scope, old, {}))
+                token = spec.at_head(NS(scope, old, {}))
             r = self._run_body(s.body, scope)
             if r == "break":
                 return
+            if spec.at_end is not None:
+                spec.at_end(NS(scope, old, {}), token)
             scope.vars[var] = mk_int(iv.t + 1)
             self._check_inv(spec, scope, old, {}, "preserve", key)
             raise PathEnd("loop preservation path")
